@@ -31,7 +31,7 @@ func init() {
 			"Not covered: which kinds the four entry points let through (C18/C03), malformed bounds (C13).",
 		Assume:  []string{"reflect.Value accessors and strconv.Atoi behave as documented", "64-bit int on the default configuration (linux/386 analysed in the thorough tier)"},
 		Trusted: []string{"go/types", "go/ssa", "specification table in c01_size.go (from README 4.2.1 and the property statement)"},
-		Run:     func(c *Ctx) { runC01(c); importRules(c, "C18", func(s *Ctx) { runC18(s); runC18VarKinds(s); runFieldIdentity(s, "C18-FIELDID") }, "C01-ENTRY", "the value measured is the one the caller supplied, through every entry point: URL values decoded exactly once from the caller's text and cut from their own parameter, struct fields read at their own offset, Var admits every numeric kind, all walkers follow the common skeleton (rules C18-URL, C18-FIELDID, C18-VARKINDS, C18-SKEL)", 6, ruleIn("C18-URL", "C18-FIELDID", "C18-VARKINDS", "C18-SKEL")); base(c, "DECLARED", "STATE", "ALIAS", "LOOP", "TEXT") },
+		Run:     func(c *Ctx) { runC01(c); runC01Exact(c); importRules(c, "C18", func(s *Ctx) { runC18(s); runC18VarKinds(s); runFieldIdentity(s, "C18-FIELDID") }, "C01-ENTRY", "the value measured is the one the caller supplied, through every entry point: URL values decoded exactly once from the caller's text and cut from their own parameter, struct fields read at their own offset, Var admits every numeric kind, all walkers follow the common skeleton (rules C18-URL, C18-FIELDID, C18-VARKINDS, C18-SKEL)", 6, ruleIn("C18-URL", "C18-FIELDID", "C18-VARKINDS", "C18-SKEL")); base(c, "DECLARED", "STATE", "ALIAS", "LOOP", "TEXT") },
 	})
 }
 
